@@ -290,15 +290,21 @@ def r10_4(run):
         ci = [c for c in ix.all_classes() if c.name == cname][0]
         m = ci.methods["create_pit_node_entries"]
         run.analysed(m)
-        cs = calls(m.node, "set_fixed_node_entries")
+        # whole-function terms: keyword / positional spelling and temporaries do not matter
+        rm = ANF(ix, m).run()
         got = {}
-        for c in cs:
-            mode = const_str(c.args[-1])
-            valname = U(c.args[4])
-            asg = [n for n in own_walk(m.node) if isinstance(n, ast.Assign) and U(n.targets[0]) == valname]
+        for c in rm.calls():
+            if c.fn != ("f", f.qualname) or len(c.args) < 7:
+                continue
+            mode = c.args[6][1] if c.args[6][0] == "c" else None
+            v = c.args[4]
+            while v[0] == "attr" and v[2] == "values":
+                v = v[1]
             colname = None
-            if asg and isinstance(asg[0].value, ast.Attribute) and asg[0].value.attr == "values":
-                colname = asg[0].value.value.attr
+            if v[0] == "attr":
+                colname = v[2]
+            elif v[0] == "idx" and len(v[2]) == 1 and v[2][0][0] == "c":
+                colname = v[2][0][1]
             got[mode] = colname
         run.ob("%s|fixed-node-calls" % cname, got == mode_expect,
                "%s.create_pit_node_entries fixes %s" % (cname, mode_expect), run.where(m, m.node), detail=str(got))
